@@ -3,6 +3,7 @@ import LitexModel.Periph.Uart
 import LitexModel.Periph.Spi
 import LitexModel.Periph.I2c
 import LitexModel.Periph.I2cMaster
+import LitexModel.Periph.Glue
 import LitexModel.DriverLib
 import LitexModel.Bits
 /-
@@ -25,6 +26,17 @@ import LitexModel.Bits
                                 out: scl_o sda_o idle data ack
   open i2cmaster                in : bus.cyc bus.stb bus.we bus.adr[0] bus.dat_w ext_scl ext_sda
                                 out: pads.scl pads.sda bus.ack bus.dat_r idle
+  open spimastern <dw> <aligned> <ncs>   as spimaster, `cs` and `pads.cs_n` are <ncs>-bit vectors
+  open uptime                   in : uptime_latch.re                          out: uptime_cycles.status
+  open mcpwm <n>                in : period, then (enable, width) per channel out: pwm per channel
+  open uarttop <dtx> <drx> <rx_we>
+                                in : rxtx.re rxtx.r rxtx.we ev.rx.clear sink.valid sink.data source.ready
+                                out: source.valid source.data sink.ready rxtx.w txfull txempty rxempty rxfull
+                                     ev.tx.trigger ev.rx.trigger
+  open uartsys <tw> <dtx> <drx> <rx_we>
+                                in : rxtx.re rxtx.r rxtx.we ev.rx.clear pads.rx
+                                out: pads.tx rxtx.w txfull txempty rxempty rxfull
+  Values are passed unmasked; the models truncate to the widths given by the constructor parameters.
 -/
 namespace Litex.Periph
 open Litex Litex.Driver
@@ -143,6 +155,61 @@ def numI2cMaster : NumMachine I2cmSt where
     | _ => none
   key s := toString (repr s)
 
+def numSpiMasterN (c : SpiCfg) (ncs : Nat) : NumMachine SpiNSt where
+  init := spiNInit c
+  step s ins := match ins with
+    | [st, len, mosi, cs, csm, lb, div, miso] =>
+      let i : SpiIn := { start := n2b st, length := trunc 8 len, mosi := trunc c.dw mosi, cs := cs.testBit 0,
+                         csMode := n2b csm, loopback := n2b lb, div := trunc 16 div, miso := n2b miso }
+      let o := (spiMaster c).out s.core i
+      some (spiNNext c ncs s i cs, [b2n o.clk, s.csN, b2n o.mosi, b2n o.done, b2n o.irq, o.miso])
+    | _ => none
+  key s := toString (repr s)
+
+def numUptime : NumMachine UptimeSt where
+  init := { cycles := 0, latched := 0 }
+  step s ins := match ins with
+    | [l] => some (uptimeNext s (n2b l), [s.latched])
+    | _ => none
+  key s := toString (repr s)
+
+def pairUp : List Nat → List (Bool × Nat)
+  | e :: w :: rest => (n2b e, trunc 32 w) :: pairUp rest
+  | _ => []
+
+def numMcPwm (n : Nat) : NumMachine McPwmSt where
+  init := { counter := 0, pwm := List.replicate n false }
+  step s ins := match ins with
+    | p :: rest =>
+      if rest.length = 2 * n then some (mcPwmNext s (trunc 32 p) (pairUp rest), s.pwm.map b2n) else none
+    | _ => none
+  key s := toString (repr s)
+
+def numUartTop (dtx drx : Nat) (rxWe : Bool) : NumMachine UartTopSt where
+  init := { tx := (Stream.syncFifoBuffered dtx zTokN).init, rx := (Stream.syncFifoBuffered drx zTokN).init }
+  step s ins := match ins with
+    | [re, r, we, clr, sv, sd, rdy] =>
+      let i : UartTopIn := { re := n2b re, r := r, we := n2b we, clearRx := n2b clr, sinkV := n2b sv, sinkD := sd,
+                             srcRdy := n2b rdy }
+      let o := uartTopOut dtx drx s i
+      some (uartTopNext dtx drx rxWe s i,
+            [b2n o.srcV, o.srcD, b2n o.sinkRdy, o.w, b2n o.txfull, b2n o.txempty, b2n o.rxempty, b2n o.rxfull,
+             b2n o.trigTx, b2n o.trigRx])
+    | _ => none
+  key s := toString (repr s)
+
+def numUartSys (tw dtx drx : Nat) (rxWe : Bool) : NumMachine UartSysSt where
+  init := { top := { tx := (Stream.syncFifoBuffered dtx zTokN).init, rx := (Stream.syncFifoBuffered drx zTokN).init },
+            txp := (uartTx tw).init, rxp := (uartRx tw).init }
+  step s ins := match ins with
+    | [re, r, we, clr, rx] =>
+      let i : UartSysIn := { re := n2b re, r := r, we := n2b we, clearRx := n2b clr, padRx := n2b rx }
+      let o := uartTopOut dtx drx s.top (uartSysTopIn tw s i)
+      some (uartSysNext tw dtx drx rxWe s i,
+            [b2n s.txp.tx, o.w, b2n o.txfull, b2n o.txempty, b2n o.rxempty, b2n o.rxfull])
+    | _ => none
+  key s := toString (repr s)
+
 def openMachine (args : List String) (hin hout : IO.FS.Stream) : Option (IO Bool) :=
   match args.head?, parseNats args.tail with
   | some "timer", some [w] => some (serve (numTimer w) hin hout)
@@ -157,6 +224,11 @@ def openMachine (args : List String) (hin hout : IO.FS.Stream) : Option (IO Bool
   | some "spislave", some [dw] => some (serve (numSpiSlave dw) hin hout)
   | some "i2c", some [cw] => some (serve (numI2c cw) hin hout)
   | some "i2cmaster", some [] => some (serve numI2cMaster hin hout)
+  | some "spimastern", some [dw, al, ncs] => some (serve (numSpiMasterN { dw := dw, aligned := n2b al } ncs) hin hout)
+  | some "uptime", some [] => some (serve numUptime hin hout)
+  | some "mcpwm", some [n] => some (serve (numMcPwm n) hin hout)
+  | some "uarttop", some [dtx, drx, rw] => some (serve (numUartTop dtx drx (n2b rw)) hin hout)
+  | some "uartsys", some [tw, dtx, drx, rw] => some (serve (numUartSys tw dtx drx (n2b rw)) hin hout)
   | _, _ => none
 
 end Litex.Periph
